@@ -172,6 +172,7 @@ def float_to_fix(signed, n_bits, n_frac):
 
     mask = int(2**n_bits - 1)
     min_v, max_v = validate_fp_params(signed, n_bits, n_frac)
+    max_int = (1 << (n_bits - 1 if signed else n_bits)) - 1
 
     # Saturate values
     def bitsk(value):
@@ -187,7 +188,9 @@ def float_to_fix(signed, n_bits, n_frac):
         if value < 0:
             fp_val = (1 << n_bits) + int(value * 2**n_frac)
         else:
-            fp_val = int(value * 2**n_frac)
+            # `max_v` is not exactly representable as a float for formats
+            # wider than a float's mantissa: it rounds up, so saturate again.
+            fp_val = min(int(value * 2**n_frac), max_int)
 
         assert 0 <= fp_val < 1 << (n_bits + 1)
         return fp_val & mask
@@ -360,10 +363,18 @@ class NumpyFloatToFixConverter(object):
         # Saturate the values
         vals = np.clip(vals, self.min_value, self.max_value)
 
+        # The upper bound may not be exactly representable in the floating
+        # point type (e.g. 2**63 - 1): it then rounds up to a value which
+        # would wrap around when cast to the integer type.
+        saturated = vals >= self.max_value
+        vals = np.where(saturated, 0, vals)
+
         # **NOTE** for some reason just casting resulted in shape
         # being zeroed on some indeterminate selection of OSes,
         # architectures, Python and Numpy versions"
-        return np.array(vals, copy=True, dtype=self.dtype)
+        fixed = np.array(vals, copy=True, dtype=self.dtype)
+        fixed[saturated] = self.max_value
+        return fixed
 
 
 class NumpyFixToFloatConverter(object):
